@@ -7,6 +7,7 @@ from concurrent.futures import ThreadPoolExecutor
 from vlib import core
 
 PKG0 = {"n1": "p", "n2": "p", "n3": "p/q", "r": "r"}
+PKG = PKG0      # (the standard layout; used by c20)
 
 def render(ws, g):
     PKG = dict(PKG0, r="" if g.get("layout") == "root" else "r")
